@@ -131,7 +131,10 @@ def run_one(res, spec, vtol, itol, maxiter, tag):
         return out
     res.classes.add(tag + ":table")
     finished.append((list(hist_v), list(hist_i)))
-    vt_, it_ = (1e-6, 1e-6) if vtol is None else (vtol, itol)
+    import inspect
+    sig_ = inspect.signature(s.solve).parameters   # default run: the tolerances in force are the documented defaults of solve()
+    dflt = (sig_["vtol"].default, sig_["itol"].default)
+    vt_, it_ = dflt if vtol is None else (vtol, itol)
     for pv, pi in finished:
         if len(pv) == 2 and len(pi) == 2:
             if not np.all(np.abs(pv[0] - pv[1]) <= 1e-8 + vt_ * np.abs(pv[1]) * (1 + 1e-9)):
@@ -140,7 +143,7 @@ def run_one(res, spec, vtol, itol, maxiter, tag):
                 res.v(("C03.stopped-before-currents-settled",), "itol=%g: last two current iterates %r %r" % (it_, pi[0].tolist(), pi[1].tolist()))
     obs = observe(df)
     res.stats["traces"] += 1
-    vt, it = (1e-6, 1e-6) if vtol is None else (vtol, itol)
+    vt, it = dflt if vtol is None else (vtol, itol)
     rt = 10.0 * (vt + it)
     sub = Res()
     phases = list(spec["phases"]) if spec.get("phases") else [""]
